@@ -69,6 +69,9 @@ FILTER_FORMS: dict[str, tuple[str, str, bool]] = {
     "t-ctx": ("t", "pgettext", True),
     "t-plural": ("t", "ngettext", True),
     "t-ctx-plural": ("t", "npgettext", True),
+    # `plural: nil` is no plural at all: the lookup is gettext / pgettext
+    "t-nilplural": ("t", "gettext", True),
+    "t-ctx-nilplural": ("t", "pgettext", True),
     "gettext": ("gettext", "gettext", True),
     "gettext-vars": ("gettext", "gettext", True),
     "ngettext": ("ngettext", "ngettext", True),
@@ -394,6 +397,18 @@ class Builder:
                 self.emit("you:" + self.ws() + self.quote("World"))
                 sep()
             site["context"] = lit("c")
+        elif form in ("t-nilplural", "t-ctx-nilplural"):
+            self.emit(":" + self.ws())
+            parts = ["p"] + (["x"] if form == "t-ctx-nilplural" else [])
+            if self.lay.chance(0.5):
+                parts.reverse()
+            for i, part in enumerate(parts):
+                if i:
+                    sep()
+                if part == "x":
+                    site["context"] = lit("c")
+                else:
+                    self.emit("plural:" + self.ws() + self.lay.pick(["nil", "null"]))
         elif form in ("t-dynctx", "pgettext-dynctx"):
             self.emit(":" + self.ws())
             dyn("x")
